@@ -376,3 +376,30 @@ def symplectic_form(n):
     z = np.zeros((n, n), dtype=np.uint8)
     e = np.eye(n, dtype=np.uint8)
     return np.block([[z, e], [e, z]])
+
+
+# ---------------------------------------------------------------------------------------------
+# generalized Gell-Mann basis from the textbook definition
+# order: symmetric (i<j, row-major) | antisymmetric (i<j, row-major) | diagonal l=1..d-1 | sqrt(2/d) identity
+
+@functools.lru_cache(None)
+def gellmann_basis(d):
+    sym, asym, diag = [], [], []
+    for i in range(d):
+        for j in range(i + 1, d):
+            m = np.zeros((d, d), dtype=np.complex128)
+            m[i, j] = 1
+            m[j, i] = 1
+            sym.append(m)
+            m = np.zeros((d, d), dtype=np.complex128)
+            m[i, j] = -1j
+            m[j, i] = 1j
+            asym.append(m)
+    for l in range(1, d):
+        m = np.zeros((d, d), dtype=np.complex128)
+        for k in range(l):
+            m[k, k] = 1
+        m[l, l] = -l
+        diag.append(m * math.sqrt(2 / (l * (l + 1))))
+    ident = [np.eye(d, dtype=np.complex128) * math.sqrt(2 / d)]
+    return np.stack(sym + asym + diag + ident)
